@@ -101,8 +101,10 @@ impl<'a> Gen<'a> {
                     let n = *self.rng.pick(&[0usize, 1, 2, 3, 3, 4, 5]);
                     let name = VARS[depth.min(3)].to_string();
                     let var = if self.rng.chance(3, 4) {
-                        let start = *self.rng.pick(&[0.0f32, 0.0, 1.0, -1.5, 2.5, -3.0, 10.0]);
-                        let step = *self.rng.pick(&[1.0f32, 1.0, 2.0, -1.0, 0.5, -0.5, 1.5, 0.25, 0.0]);
+                        // among them values that are exact in binary but have more than three decimals: the loop
+                        // variable carries the value itself, not its 3-decimal output form
+                        let start = *self.rng.pick(&[0.0f32, 0.0, 1.0, -1.5, 2.5, -3.0, 10.0, 0.0625, -0.4375]);
+                        let step = *self.rng.pick(&[1.0f32, 1.0, 2.0, -1.0, 0.5, -0.5, 1.5, 0.25, 0.0, 0.0625, 0.03125, -0.1875]);
                         Some((name.clone(), start, step))
                     } else {
                         None
